@@ -15,6 +15,7 @@ LEAN = V + "/lean"
 WIRE = BUILD + "/wire"
 WIREVERIF = BUILD + "/wireverif"
 WIREMODEL = LEAN + "/.lake/build/bin/wiremodel"
+WIRESHOW = BUILD + "/wireshow"
 
 GOENV = dict(os.environ, GOFLAGS="-mod=mod", GOPROXY="off", GOSUMDB="off", GOTOOLCHAIN="local",
              GO111MODULE="on", CGO_ENABLED="0")
@@ -50,6 +51,8 @@ class BuildState:
     wire_ok = False
     harness_ok = False
     lean_log = ""
+    show_ok = False
+    show_log = ""
     harness_log = ""
     wire_log = ""
 
@@ -78,6 +81,11 @@ def build_go():
     rc, out, err = run(["go", "build", "-tags", "verif", "-overlay", BUILD + "/overlay.json",
                         "-o", WIREVERIF, "./cmd/wireverif"], cwd=REPO, timeout=600)
     st.harness_ok, st.harness_log = rc == 0, out + err
+    if os.path.exists(WIRESHOW):
+        os.remove(WIRESHOW)
+    rc, out, err = run(["go", "build", "-tags", "verif", "-overlay", BUILD + "/overlay.json",
+                        "-o", WIRESHOW, "./cmd/wire"], cwd=REPO, timeout=600)
+    st.show_ok, st.show_log = rc == 0, out + err
     return st
 
 
